@@ -105,6 +105,55 @@ fn classify(src: &str, printed: &str) -> &'static str {
     }
 }
 
+/// Totality with an alias table in effect (recursive, mutually recursive and global aliases make
+/// the parser re-read its own output): Ok/Err, never a panic or a hang.
+fn check_total_with_aliases(ctx: &Ctx, src: &str, table: &[(&str, &str, bool)], counters: &Counters) {
+    use yash_env::alias::{AliasSet, HashEntry};
+    use yash_syntax::source::Location;
+    counters.inputs.fetch_add(1, Relaxed);
+    let case = json!({"input": src, "aliases": table.iter().map(|(n, v, g)| format!("{}{n}={v:?}", if *g { "-g " } else { "" })).collect::<Vec<_>>()});
+    let _guard = case_guard(case.to_string());
+    let mut set = AliasSet::new();
+    for (n, v, g) in table {
+        set.insert(HashEntry::new(n.to_string(), v.to_string(), *g, Location::dummy("alias")));
+    }
+    let r = catch(|| {
+        let mut lexer = Lexer::with_code(src);
+        let mut cfg = Parser::config();
+        cfg.aliases(&set);
+        let mut parser = cfg.input(&mut lexer);
+        for _ in 0..10_000 {
+            match parser.command_line().now_or_never() {
+                None => return Err("BLOCKED"),
+                Some(Ok(Some(_))) => {}
+                Some(Ok(None)) | Some(Err(_)) => return Ok(()),
+            }
+        }
+        Err("HANG")
+    });
+    match r {
+        Err(p) => {
+            ctx.violation("c06:panic-with-aliases", &format!("parser panicked on {src:?}: {p}"), case);
+        }
+        Ok(Err(e)) => {
+            ctx.violation("c06:hang-with-aliases", &format!("{e} on {src:?}"), case);
+        }
+        Ok(Ok(())) => {}
+    }
+}
+
+const ALIAS_TABLES: &[&[(&str, &str, bool)]] = &[
+    &[("a", "a", false), ("b", "b a", false)],
+    &[("a", "b ", false), ("b", "a ", false), ("c", "a b ", false)],
+    &[("c", "c x", true)],
+    &[("a", "b x", true), ("b", "a y", true)],
+    &[("a", "x a ", true), ("b", "a", false), ("c", "b ", false)],
+    &[("a", "if", false), ("b", "then", false), ("c", "fi", false)],
+    &[("a", "! a", false), ("b", "( b", false), ("c", "{ c; }", true)],
+    &[("a", "for a in a", true), ("b", "case b in b", true), ("c", "<c", true)],
+];
+const ALIAS_TOKENS: &[&str] = &["a", "b", "c", "x", "!", ";", "|", "&&", "(", ")", "{", "}", "if", "then", "fi", "<f", ">c", "for", "in", "do", "done", "case", "esac", "\n", "a=1", "'a'"];
+
 fn check_input(ctx: &Ctx, src: &str, counters: &Counters) {
     counters.inputs.fetch_add(1, Relaxed);
     let _guard = case_guard(json!({"input": src}).to_string());
@@ -362,13 +411,42 @@ pub fn run(tier: Tier) -> i32 {
         }
     });
     let class_inputs = counters.inputs.load(Relaxed) - before_d;
+    // (e) totality while alias substitution is in effect
+    let before_e = counters.inputs.load(Relaxed);
+    let nt2 = ALIAS_TOKENS.len();
+    let amax = tier.pick(3, 4);
+    ALIAS_TABLES.par_iter().for_each(|table| {
+        let mut idx = vec![0usize];
+        loop {
+            let toks: Vec<String> = idx.iter().map(|i| ALIAS_TOKENS[*i].to_string()).collect();
+            check_total_with_aliases(&ctx, &join(&toks), table, &counters);
+            if idx.len() < amax {
+                idx.push(0);
+            } else {
+                loop {
+                    let last = idx.len() - 1;
+                    if idx[last] + 1 < nt2 {
+                        idx[last] += 1;
+                        break;
+                    }
+                    idx.pop();
+                    if idx.is_empty() {
+                        return;
+                    }
+                }
+            }
+        }
+    });
+    let alias_inputs = counters.inputs.load(Relaxed) - before_e;
     let cov = json!({
         "character_class_inputs": class_inputs,
+        "inputs_parsed_with_alias_tables": alias_inputs,
+        "alias_tables": ALIAS_TABLES.len(),
         "character_class_contexts": CONTEXTS.len(),
         "character_classes": classes.len(),
         "evaluations": counters.inputs.load(Relaxed) + counters.roundtrips.load(Relaxed),
         "distinct_nontrivial": counters.roundtrips.load(Relaxed),
-        "rule": format!("(a) every sequence of <= {tmax} tokens over {} tokens (words with every expansion kind, assignments, all reserved words, all operators, redirections with and without fd, here-document operators with a body, unclosed quotes / $( / ${{ / ` / $(( / $', comment, function headers); (b) every script of the scripted-test corpus ({} scripts) plus every single-token deletion, adjacent swap and truncation (and every character truncation of short ones); (c) every string of length <= {} over 25 raw characters incl. multi-byte; (d) lexer contexts with one hole x all 128 ASCII characters and Unicode class representatives, and with two adjacent holes. Every input must make the parser return Ok or Err without panic/hang; for every Ok tree without here-documents the printed text must parse to a structurally equal tree (Debug rendering with all Locations erased). Non-trivial = inputs that parsed and were round-tripped.", TOKENS.len(), scripts.len(), tier.pick(3, 4)),
+        "rule": format!("(a) every sequence of <= {tmax} tokens over {} tokens (words with every expansion kind, assignments, all reserved words, all operators, redirections with and without fd, here-document operators with a body, unclosed quotes / $( / ${{ / ` / $(( / $', comment, function headers); (b) every script of the scripted-test corpus ({} scripts) plus every single-token deletion, adjacent swap and truncation (and every character truncation of short ones); (c) every string of length <= {} over 25 raw characters incl. multi-byte; (d) lexer contexts with one hole x all 128 ASCII characters and Unicode class representatives, and with two adjacent holes; (e) every sequence of <= 3/4 tokens over 26 tokens parsed with each of 8 alias tables (self-recursive, mutually recursive, blank-ending chains, global aliases incl. self-referencing and cyclic ones, aliases producing reserved words and operators): the parser must terminate without panic. Every input must make the parser return Ok or Err without panic/hang; for every Ok tree without here-documents the printed text must parse to a structurally equal tree (Debug rendering with all Locations erased). Non-trivial = inputs that parsed and were round-tripped.", TOKENS.len(), scripts.len(), tier.pick(3, 4)),
         "samples": samples.take(),
         "token_sequence_inputs": token_inputs,
         "corpus_scripts": scripts.len(),
